@@ -122,11 +122,55 @@ impl<'tcx> Cx<'tcx> {
                     ty::Ref(_, inner, _) if matches!(inner.kind(), ty::Slice(_) | ty::Str) => {
                         self.bytes_of_fat_ptr_in_alloc(id, off.bytes() as usize)
                     }
-                    _ => None,
+                    // pointer to a thin pointer (&&T): follow it
+                    ty::Ref(_, inner, _) => {
+                        let (id2, off2) = self.thin_ptr_in_alloc(id, off.bytes() as usize)?;
+                        self.bytes_of_sized(id2, off2, *inner)
+                    }
+                    _ => self.bytes_of_sized(id, off.bytes() as usize, pointee),
                 }
             }
             _ => None,
         }
+    }
+    fn thin_ptr_in_alloc(&self, id: AllocId, off: usize) -> Option<(AllocId, usize)> {
+        let alloc = match self.tcx.global_alloc(id) {
+            GlobalAlloc::Memory(a) => a,
+            GlobalAlloc::Static(did) => self.tcx.eval_static_initializer(did).ok()?,
+            _ => return None,
+        };
+        let a = alloc.inner();
+        if off + 8 > a.len() {
+            return None;
+        }
+        let raw = a.inspect_with_uninit_and_ptr_outside_interpreter(off..off + 8);
+        let addr = u64::from_le_bytes(raw[0..8].try_into().ok()?) as usize;
+        let prov = a.provenance().ptrs().iter().find(|(o, _)| o.bytes() as usize == off).map(|(_, p)| *p)?;
+        Some((prov.alloc_id(), addr))
+    }
+    /// bytes of a sized, pointer-free value stored at (alloc, off)
+    fn bytes_of_sized(&self, id: AllocId, off: usize, t: Ty<'tcx>) -> Option<Vec<u8>> {
+        if t.has_non_region_param() {
+            return None;
+        }
+        let layout = self.tcx.layout_of(TypingEnv::fully_monomorphized().as_query_input(t)).ok()?;
+        let n = layout.size.bytes() as usize;
+        if n == 0 || n > 4096 {
+            return None;
+        }
+        let alloc = match self.tcx.global_alloc(id) {
+            GlobalAlloc::Memory(a) => a,
+            GlobalAlloc::Static(did) => self.tcx.eval_static_initializer(did).ok()?,
+            _ => return None,
+        };
+        let a = alloc.inner();
+        if off + n > a.len() {
+            return None;
+        }
+        if a.provenance().ptrs().iter().any(|(o, _)| (o.bytes() as usize) >= off && (o.bytes() as usize) < off + n) {
+            return None;
+        }
+        Some(a.inspect_with_uninit_and_ptr_outside_interpreter(off..off + n).to_vec())
     }
     fn bytes_of_fat_ptr_in_alloc(&self, id: AllocId, off: usize) -> Option<Vec<u8>> {
         let alloc = match self.tcx.global_alloc(id) {
@@ -205,6 +249,14 @@ impl<'tcx> Cx<'tcx> {
                 match self.read_alloc(alloc_id, offset.bytes() as usize, n) {
                     Some(b) => items.push(("bytes", hex(&b))),
                     None => items.push(("opaque", esc("indirect"))),
+                }
+            }
+            ConstValue::Indirect { alloc_id, offset }
+                if matches!(ty.kind(), ty::Ref(_, inner, _) if matches!(inner.kind(), ty::Slice(_) | ty::Str)) =>
+            {
+                match self.bytes_of_fat_ptr_in_alloc(alloc_id, offset.bytes() as usize) {
+                    Some(b) => items.push(("bytes", hex(&b))),
+                    None => items.push(("opaque", esc("indirect-fat"))),
                 }
             }
             other => {
